@@ -159,7 +159,7 @@ PROPERTIES = {
         ],
     },
     "C07": {
-        "functions": ["effects:C07"],
+        "functions": ["effects:C07"] + ["metricreads:" + k for k in sorted(__import__("specs.metrics", fromlist=["METRICS"]).METRICS)],
         "lemmas": [],
         "files": ["opfython/utils/decorator.py", "opfython/math/distance.py", "opfython/core/node.py",
                   "opfython/core/subgraph.py", "opfython/core/opf.py", "opfython/models/supervised.py",
